@@ -71,7 +71,55 @@ type hideStat struct {
 	best   int // max over proofs of bitlen(r) - bitlen(c*m)
 }
 
+// c04Extreme: the holder's proofs while single reads of crypto/rand.Reader return all ones / all zeros. The proof must verify and
+// report exactly the chosen values whatever the random source returns.
+func c04Extreme(r *mon.Run) {
+	key := world.Fixture("toy512a")
+	cred, err := key.SignCred([]*big.Int{bi(1).Lsh(bi(1), 220), bi(4711), bi(42), bi(1).Lsh(bi(1), 300)})
+	if err != nil {
+		panic(err)
+	}
+	for _, issig := range []bool{false, true} {
+		extremeDraws(r.Pick(8, 14), func(desc string, hit func() bool) {
+			ctx, nonce := bi(1), bi(55555)
+			var list gabi.ProofList
+			var perr error
+			pv, stack := mon.Try(func() {
+				b, e := cred.C.CreateDisclosureProofBuilder([]int{2}, nil, false)
+				if e != nil {
+					perr = e
+					return
+				}
+				list, perr = gabi.ProofBuilderList{b}.BuildProofList(ctx, nonce, issig)
+			})
+			if !hit() {
+				return
+			}
+			d := fmt.Sprintf("issig=%v %s", issig, desc)
+			r.Distinct("extreme-randomness", d)
+			if pv != nil {
+				r.Eval("extreme-randomness", "panic")
+				r.Violation("C04/honest-proof-rejected/extreme-randomness", fmt.Sprintf("proving panics under an extreme random draw: %v at %s (%s)", pv, mon.PanicSite(stack), d), map[string]any{"case": d})
+				return
+			}
+			ok := false
+			if perr == nil && len(list) == 1 {
+				ok, _, _ = verifyList(cloneList(list), []*gabikeys.PublicKey{key.PK}, ctx, nonce, issig, nil)
+				if dd, isD := list[0].(*gabi.ProofD); ok && isD {
+					ok = len(dd.ADisclosed) == 1 && dd.ADisclosed[2] != nil && dd.ADisclosed[2].Cmp(cred.Ledger[2]) == 0 && len(dd.AResponses) == 3
+				}
+			}
+			r.Eval("extreme-randomness", outcome(ok, nil))
+			if !ok {
+				r.Violation("C04/honest-proof-rejected/extreme-randomness", fmt.Sprintf("the holder cannot produce a verifying proof of the chosen attribute under an extreme random draw (err=%v) (%s)", perr, d), map[string]any{"case": d})
+			}
+		})
+	}
+	r.FloorFam("extreme-randomness", 8)
+}
+
 func runC04(r *mon.Run) {
+	c04Extreme(r)
 	keys := []string{"toy512a", "toy512z", "toy384a", "fix1024a"}
 	if r.Thorough() {
 		keys = []string{"toy512a", "toy384a", "toy256a", "toy512z", "fix1024a", "fix2048a"}
